@@ -15,7 +15,7 @@ type c06 struct{}
 func (c06) ID() string    { return "C06" }
 func (c06) Level() string { return "exploration" }
 func (c06) Rule() string {
-	return "a model of 3 services (each with a variable-bearing image, a relative build context and a relative bind mount) and a network, volume, file secret, environment-sourced secret and config: every assignment of the services to {main file, included file 1, included file 2} x nesting {flat, chain, diamond} x directory of each included file {same, sub-directory, sibling} x project_directory {absent, relative, absolute} x include syntax {short, long} x environment sources of the included project {none, own .env, one env_file, two env_files, one absolute env_file, a relative and an absolute env_file} x the variable defined in every subset of {parent environment, included environment} x content of the including project read after the include {none, override file, second document}; a variable the parent defines as the empty string against the included project's .env / env_file (also nested); sibling includes with disjoint and clashing variables (each special case delivered by file name, by content, and by content under a name relative to the working directory); include cycles in 5 more path spellings; conflicting and identical redefinitions; include cycles of length 1..3; an environment-sourced config/secret inside an included file. Oracle: field-level equality with the pasted model (parent environment first, included environment for what it does not define; paths joined with the included project directory); conflict/cycle -> error. distinct = distinct scenario shapes"
+	return "a model of 3 services (each with a variable-bearing image, a relative build context and a relative bind mount) and a network, volume, file secret, environment-sourced secret and config: every assignment of the services to {main file, included file 1, included file 2} x nesting {flat, chain, diamond} x directory of each included file {same, sub-directory, sibling} x project_directory {absent, relative, absolute} x include syntax {short, long} x environment sources of the included project {none, own .env, one env_file, two env_files, one absolute env_file, a relative and an absolute env_file} x the variable defined in every subset of {parent environment, included environment} x content of the including project read after the include {none, override file, second document}; a variable the parent defines as the empty string against the included project's .env / env_file (also nested); env_file / project_directory of a second-level include written relative to the first-level included project; sibling includes with disjoint and clashing variables (each special case delivered by file name, by content, and by content under a name relative to the working directory); include cycles in 5 more path spellings; conflicting and identical redefinitions; include cycles of length 1..3; an environment-sourced config/secret inside an included file. Oracle: field-level equality with the pasted model (parent environment first, included environment for what it does not define; paths joined with the included project directory); conflict/cycle -> error. distinct = distinct scenario shapes"
 }
 func (c06) Assumptions() []string {
 	return []string{"the pasted model is computed by the reference in props/c06.go from the statement"}
@@ -473,6 +473,30 @@ func c06special(c *core.Ctx) {
 			return ""
 		}, files: map[string]string{
 			"compose.yaml": "include:\n  - ./one/compose.yaml\nservices:\n" + svc("m", "m"), "one/.env": "V=file\n", "one/compose.yaml": "services:\n" + svc("one", "i-${V}-x")}})
+	// an included file that itself includes, with an env_file / project_directory written relative to its own directory:
+	// the second level anchors on the included project's directory, exactly like the first
+	imgIs := func(svcName, want string) func(map[string]string) string {
+		return func(im map[string]string) string {
+			if im[svcName] != want {
+				return fmt.Sprintf("service %s has image %q, expected %q", svcName, im[svcName], want)
+			}
+			return ""
+		}
+	}
+	cases = append(cases,
+		sc{name: "nested-relative-env_file", check: imgIs("c", "c-1"), files: map[string]string{
+			"compose.yaml": "include:\n  - ./sub/b.yaml\nservices:\n" + svc("m", "m"),
+			"sub/b.yaml":   "include:\n  - path: ./c/c.yaml\n    env_file: ./c/my.env\nservices:\n" + svc("b", "b"),
+			"sub/c/c.yaml": "services:\n" + svc("c", "c-${V}"), "sub/c/my.env": "V=1\n"}},
+		sc{name: "nested-relative-project_directory", check: imgIs("c", "c-2"), files: map[string]string{
+			"compose.yaml": "include:\n  - ./sub/b.yaml\nservices:\n" + svc("m", "m"),
+			"sub/b.yaml":   "include:\n  - path: ./c.yaml\n    project_directory: ./pd\nservices:\n" + svc("b", "b"),
+			"sub/c.yaml":   "services:\n" + svc("c", "c-${V}"), "sub/pd/.env": "V=2\n"}},
+		sc{name: "nested-twice-relative-env_file", check: imgIs("d", "d-3"), files: map[string]string{
+			"compose.yaml":   "include:\n  - ./sub/b.yaml\nservices:\n" + svc("m", "m"),
+			"sub/b.yaml":     "include:\n  - ./c/c.yaml\nservices:\n" + svc("b", "b"),
+			"sub/c/c.yaml":   "include:\n  - path: ./d/d.yaml\n    env_file: [./d/one.env]\nservices:\n" + svc("c", "c"),
+			"sub/c/d/d.yaml": "services:\n" + svc("d", "d-${V}"), "sub/c/d/one.env": "V=3\n"}})
 	// include cycles whose edges are spelled in other ways than ./file
 	for _, sp := range []struct{ name, fwd, back string }{
 		{"bare", "sub/a.yaml", "../compose.yaml"}, {"updown", "./d/../sub/a.yaml", "../d/../compose.yaml"},
